@@ -7,7 +7,7 @@ from .. import prog as P
 from .. import terms as T
 from .. import spec as S
 from ..rules import guard as G
-from ..rules import rel, sig
+from ..rules import rel, sig, slots
 from . import c05
 from witness import winst
 
@@ -285,6 +285,10 @@ def run(chk, tier):
         table = json.load(fh)["entries"]
     terminator_rule(chk, db)
     size_bound_rule(chk, plain, table)
+    # SLOTS-W: a size store that may grow the string is on a path that writes the newly exposed characters
+    slots.check(chk, plain, ["basic_inplace_string"], lambda r: False, only=("W",))
+    if chk.rule_instances.get("SLOTS-W", 0) < 4:
+        chk.analysis_broken("SLOTS-W: only %d growing size stores found in basic_inplace_string (floor 4)" % chk.rule_instances.get("SLOTS-W", 0))
     same_name_delegation(chk, db)
     nrel = rel.check(chk, db, ["_string/basic_inplace_string.hpp"])
     if nrel < 16:
